@@ -108,6 +108,9 @@ func stmtBumpSeq() *Stmt {
 func stmtMark() *Stmt {
 	return &Stmt{Kind: "call", Call: CallE(tool(), "Mark", TAny, reflect.Invalid, VarE(P("T.Seq"), TInt, reflect.Int64))}
 }
+const peekKey = "main hall"
+const peekKText = `T.PeekK("main hall")`
+
 func stmtPoke(r *rand.Rand) *Stmt {
 	arg := Bin("%", TInt, VarE(P("T.Seq"), TInt, reflect.Int64), LitI(int64(r.Intn(3))+2))
 	return &Stmt{Kind: "call", Call: CallE(tool(), "Poke", TAny, reflect.Invalid, arg)}
@@ -156,10 +159,15 @@ func GenTraceProgram(r *rand.Rand, o TraceOpts) *Program {
 		}
 		if o.Announce && (r.Intn(3) == 0 || o.AnnounceDense) {
 			var peek *Expr
-			if r.Intn(2) == 0 {
+			switch r.Intn(3) {
+			case 0:
 				peek = CallE(tool(), "Peek", TInt, reflect.Int64)
-			} else {
+			case 1:
 				peek = VarE(P("T.St"), TInt, reflect.Int64)
+			default:
+				// a call text with a blank inside a string argument, spelled exactly as Forget names it
+				peek = CallE(tool(), "PeekK", TInt, reflect.Int64, LitS(peekKey))
+				peek.Fix = peekKText
 			}
 			c := Bin([]string{"==", "!=", "<", ">"}[r.Intn(4)], TBool, peek, LitI(int64(r.Intn(4))))
 			rule.When = Bin([]string{"&&", "||"}[r.Intn(2)], TBool, c, rule.When)
@@ -189,7 +197,8 @@ func GenTraceProgram(r *rand.Rand, o TraceOpts) *Program {
 			}
 			rule.Then = append(rule.Then, stmtPoke(r),
 				&Stmt{Kind: "changed", Name: "T.St"},
-				&Stmt{Kind: []string{"forget", "changed"}[r.Intn(2)], Name: "T.Peek()"})
+				&Stmt{Kind: []string{"forget", "changed"}[r.Intn(2)], Name: "T.Peek()"},
+				&Stmt{Kind: []string{"forget", "changed"}[r.Intn(2)], Name: peekKText})
 		}
 		if o.Control {
 			switch k := r.Intn(12); {
